@@ -3,14 +3,13 @@
 //! `base64` and `httpdate` crates (a disagreement between references is a harness error, exit 2).
 
 use crate::common::refs::*;
-use crate::engine::{catch, hash_of, hex, pt, unhex, Ctx, Fail};
+use crate::engine::{catch, hash_of, hex, par, pt, unhex, Ctx, Fail, Lcg};
 use base64::Engine as _;
 use humphrey::http::date::DateTime;
 use humphrey::percent::{PercentDecode, PercentEncode};
 use humphrey_ws::verif_hooks::{Base64Decode, Base64Encode, SHA1Hash};
 use proptest::prelude::*;
 use serde_json::{json, Value as J};
-use std::sync::Mutex;
 
 fn harness_error(msg: String) -> ! {
     eprintln!("HARNESS ERROR: {}", msg);
@@ -166,74 +165,6 @@ fn check_date(ts: i64) -> Option<Fail> {
 }
 
 // ------------------------------------------------------------------------------------------ drivers
-
-struct Acc {
-    evals: u64,
-    nontrivial: u64,
-    first: Option<(Fail, &'static str, J)>,
-}
-
-impl Acc {
-    fn new() -> Acc {
-        Acc { evals: 0, nontrivial: 0, first: None }
-    }
-    fn add(&mut self, nt: bool, f: Option<Fail>, kind: &'static str, case: impl FnOnce() -> J) {
-        self.evals += 1;
-        if nt {
-            self.nontrivial += 1;
-        }
-        if let Some(f) = f {
-            if self.first.is_none() {
-                self.first = Some((f, kind, case()));
-            }
-        }
-    }
-}
-
-fn merge(ctx: &Ctx, accs: Vec<Acc>) {
-    for a in accs {
-        ctx.bulk_n(a.evals, a.nontrivial);
-        if let Some((f, kind, case)) = a.first {
-            if !ctx.tolerate(&f) {
-                ctx.violation(f, kind, case);
-            }
-        }
-    }
-}
-
-/// run `f(shard, nshards, &mut Acc)` on 16 threads
-fn par(ctx: &Ctx, f: impl Fn(usize, usize, &mut Acc) + Sync) {
-    let n = 16;
-    let out = Mutex::new(Vec::new());
-    std::thread::scope(|s| {
-        for i in 0..n {
-            let f = &f;
-            let out = &out;
-            s.spawn(move || {
-                let mut a = Acc::new();
-                f(i, n, &mut a);
-                out.lock().unwrap().push(a);
-            });
-        }
-    });
-    merge(ctx, out.into_inner().unwrap());
-}
-
-struct Lcg(u64);
-impl Lcg {
-    fn next(&mut self) -> u64 {
-        self.0 = pt::mix(self.0, 0x1234567);
-        self.0
-    }
-    fn bytes(&mut self, n: usize) -> Vec<u8> {
-        let mut v = Vec::with_capacity(n + 8);
-        while v.len() < n {
-            v.extend_from_slice(&self.next().to_le_bytes());
-        }
-        v.truncate(n);
-        v
-    }
-}
 
 fn sha1_part(ctx: &Ctx) {
     let seed = ctx.seed;
